@@ -37,6 +37,17 @@ SNIPPETS = {
     'callable-param': 'def c_p(h: (Int) -> Int, v: Int) -> Int => h(v)\nprint(c_p(\\cx: Int => cx + 1, 2))',
     'callable-two-args': 'def c_q(h: (Int, Str) -> Int) -> Int => h(1, "s")\nprint("q")',
     'any-param': 'def a_p(a: Any) -> Int => 1\nprint(a_p("x"))',
+    # a support name that occurs ONLY inside a nullable / generic / union type
+    'any-only-nullable-param': 'def an_p(key: Str, dflt: Any?) -> Int => 1\nprint(an_p("k", None))',
+    'any-only-nullable-field': 'class An_f(def value: Any?)\nprint("anf")',
+    'any-only-in-generic': 'def an_g(items: List[Any]) -> Int => 1\nprint(an_g([1]))',
+    'any-only-in-union': 'def an_u(a: {Any, Int}) -> Int => 1\nprint("anu")',
+    'any-only-as-return': 'def an_r(a: Int) -> Any => a\nprint("anr")',
+    'tuple-only-nullable': 'def tn_p(a: (Int, Str)?) -> Int => 1\nprint(tn_p(None))',
+    'callable-only-nullable': 'def cn_p(h: ((Int) -> Int)?) -> Int => 1\nprint(cn_p(None))',
+    'callable-only-in-generic': 'def cg_p(hs: List[(Int) -> Int]) -> Int => 1\nprint("cg")',
+    'union-only-nullable': 'def un_p(a: {Int, Str}?) -> Int => 1\nprint(un_p(None))',
+    'tuple-only-in-generic': 'def tg_v: List[(Int, Int)] := [(1, 2)]\nprint("tg")',
     'type-alias': 'type Km: Int when self >= 0\nprint("km")',
     'abstract-type': 'type A_sh\n    def area(self) -> Int\nclass A_sq(def s: Int): A_sh\n    def area(self) -> Int => self.s\nprint(A_sq(2).area())',
     'abstract-with-field': 'type A_nm\n    def label: Str\n    def show(self) -> Str\nprint("abs")',
@@ -86,19 +97,25 @@ def judge(w, src, user_imports, part, origin, flags=(True, False), execute=True)
         stmts = [st for st in ast.parse(py).body if isinstance(st, (ast.Import, ast.ImportFrom))]
         user_dumps = [ast.dump(ast.parse(ui).body[0]) for ui in user_imports]
         gen_stmts = []
-        for st in stmts:
+        for st in reversed(stmts):       # the generator prepends: of two equal statements the later one is the user's
             d = ast.dump(st)
             if d in user_dumps:
                 user_dumps.remove(d)
             else:
-                gen_stmts.append(st)
+                gen_stmts.insert(0, st)
         gen_names = [(a.asname or a.name).split('.')[0] for st in gen_stmts for a in st.names]
         all_names = [(a.asname or a.name).split('.')[0] for st in stmts for a in st.names]
         dup = sorted({n_ for n_ in gen_names if all_names.count(n_) > 1})
         if dup:
             part.violation(f"imported-twice:{'+'.join(dup)[:60]}", dict(wit, dup=dup)); bad = True
-        if rep['late']:
-            part.violation('import-after-first-statement', dict(wit, late=rep['late'])); bad = True
+        # placement is about what the GENERATOR adds as well: the user's own imports stay where the user put them
+        body_ = ast.parse(py).body
+        first_other = next((k_ for k_, st in enumerate(body_) if not isinstance(st, (ast.Import, ast.ImportFrom))
+                            and not (isinstance(st, ast.Expr) and isinstance(st.value, ast.Constant) and isinstance(st.value.value, str))), len(body_))
+        gen_lines = {st.lineno for st in gen_stmts}
+        late = [ast.unparse(st) for k_, st in enumerate(body_) if k_ > first_other and isinstance(st, (ast.Import, ast.ImportFrom)) and st.lineno in gen_lines]
+        if late:
+            part.violation('import-after-first-statement', dict(wit, late=late)); bad = True
         # user imports reproduced unchanged (compared as ASTs of single statements)
         out_imports = [ast.dump(st) for st in ast.parse(py).body if isinstance(st, (ast.Import, ast.ImportFrom))]
         for ui in user_imports:
@@ -117,7 +134,10 @@ def judge(w, src, user_imports, part, origin, flags=(True, False), execute=True)
                              'mamba_head': src[:240]})
 
 
-def build(r, names, imports):
+def build(r, names, imports, late=False):
+    """late: the user's imports stand AFTER the code (legal; the generator's own imports must nevertheless precede the first use)"""
+    if late:
+        return '\n'.join([SNIPPETS[n] for n in names] + imports + ['print("after-imports")']) + '\n'
     return '\n'.join(imports + [SNIPPETS[n] for n in names]) + '\n'
 
 
@@ -132,6 +152,13 @@ def shard(i, n, nrandom):
             if k % n == i:
                 judge(w, build(None, [nm], [ui] if ui else []), [ui] if ui else [], part, f'single:{nm}+{ui}')
                 part.count('single-cells')
+    # the same with the user import placed after the snippet
+    for nm in names:
+        for ui in USER_IMPORTS[:6]:
+            k += 1
+            if k % n == i and (k // n) % 2 == common.SEED % 2:
+                judge(w, build(None, [nm], [ui], late=True), [ui], part, f'single-late-import:{nm}+{ui}')
+                part.count('late-import-cells')
     # every pair of snippets (order both ways matters for "first use")
     for a in names:
         for b in names:
